@@ -98,6 +98,9 @@ func genDKV(r *rand.Rand, prop, tier string) simcore.Case {
 			cs.Ops = append(cs.Ops, simcore.Op{K: "gc"})
 		}
 	}
+	if prop == "C18" && r.IntN(2) == 0 {
+		genCompactDirect(r, &cs, tier)
+	}
 	return cs
 }
 
@@ -398,6 +401,10 @@ func gcStep(disk *sim.Disk) int {
 }
 
 func bodyDKV(c *sim.Ctx) {
+	if c.Cfg("direct", 0) == 1 {
+		bodyCompactDirect(c)
+		return
+	}
 	prop := c.Prop
 	if os.Getenv("VERIF_DEBUG") != "" {
 		defer func() {
